@@ -234,8 +234,9 @@ func Main(id string) {
 	case "C01":
 		cov["negative_control_forks_found"] = negativeForks
 		if negativeForks == 0 && *cfgFlag == "" {
-			r.Note("negative control (n=3, f=1) found no fork: the oracle was not shown to fire in this run")
+			r.Note("negative control found no fork: the oracle was not shown to fire in this run")
 		}
+		devSearch(r, cfgs, cov, *cfgFlag)
 	case "C15":
 		livenessPass(r, states, cov)
 	case "C14":
